@@ -136,8 +136,8 @@ PROPS["C02"] = {
 
 PROPS["C17"] = {
     "level": "other",
-    "technique": "Verus typestate contract on the extracted OTLP export_request_to_data_points (eight nested loops: every point is built from the resource attributes of the ResourceMetrics entry it belongs to, with its own metric name and timestamp); Verus totality + termination contracts on the extracted protobuf reader (read_varint, parse_sample, parse_label, parse_timeseries, parse_write_request: every index, slice bound and addition proved safe for all byte strings, position strictly increasing); Kani complete harnesses for the checked end computation, the value routing over all f64 bit patterns and the ms->ns conversion; bounded harness for the varint value",
-    "verus": ["c17_parsers.rs.in", "c17_otlp.rs.in"],
+    "technique": "Verus contract on the row-building loop of convert_prom_to_arrow (one row per sample of every series in order; every column one cell per row; each row carries its own series' metric name, its sample's timestamp in ns and its series' label values, None where the series lacks the label), over the Kani-decided value routing and ms->ns scaling of the same text; Verus typestate contract on the extracted OTLP export_request_to_data_points (eight nested loops: every point is built from the resource attributes of the ResourceMetrics entry it belongs to, with its own metric name and timestamp); Verus totality + termination contracts on the extracted protobuf reader (read_varint, parse_sample, parse_label, parse_timeseries, parse_write_request: every index, slice bound and addition proved safe for all byte strings, position strictly increasing); Kani complete harnesses for the checked end computation, the value routing over all f64 bit patterns and the ms->ns conversion; bounded harness for the varint value",
+    "verus": ["c17_parsers.rs.in", "c17_otlp.rs.in", "c17_prom_rows.rs.in"],
     "kani": ["c17_ingest"],
     "explanation": "Parser totality and termination are proved unbounded by Verus on the extracted text; end computation, value routing (all f64 bit patterns) and ms->ns conversion are complete Kani proofs; the varint value formula is checked by a bounded Kani harness (16-byte window). Row-level fidelity of the conversion loops (labels, ordering) and the OTLP path are not under contract, hence level other.",
     "assumptions": [
